@@ -496,6 +496,16 @@ class PipeGen:
         if rvar is None:
             return None
         rt = self.t(rvar)
+        if self.chance(3) and len(rt.visible) > 1 and not rt.group:
+            # hidden columns of the same name on both sides: deselect on the right what is hidden on the left
+            lh = set(t.hidden())
+            hidden_names = {n for v in self.env.vars.values() for n, c in v.visible if c in lh}
+            cand = [n for n, c in rt.visible if n in hidden_names and c not in rt.agg_cols]
+            if cand:
+                r2 = self.emit({"out": self.new_var(), "verb": "drop", "in": rvar, "cols": [{"c": self.pick(cand)}]})
+                if r2 is not None:
+                    rvar, rt = r2, self.t(r2)
+                    self.classes.add("join_hidden_both_sides")
         if t.n * rt.n > 4000:
             return None  # keep products small (bounds are stated in the evidence rule)
         if set(t.scope) & set(rt.scope):
